@@ -1,13 +1,19 @@
 """C03  Tile grids tile the plane: exact, gap-free and consistent coordinate arithmetic.
 
-Model: coq/theories/Grid.v (exact integer arithmetic), theorems: coq/props/P_C03.v.
+Model: coq/theories/Grid.v (exact integer arithmetic), lemmas coq/theories/Grid_proofs.v, theorems coq/props/P_C03.v;
+the integer helpers flip_tile_coord / limit_tile / _create_tile_list are additionally generated from the source
+(translator/specs/grid_int.py -> coq/gen/Gen_grid_int.v) and proved equal to the hand model (Grid_gen_proofs.v).
 Tie: correspondence on the public API of mapproxy.grid.TileGrid built through the real constructors
 (TileGrid(...), tile_grid(...)): an *exact stream* of grids whose parameters are integers (all float operations
 of grid.py are exact there, implementation and model must agree bit for bit, values on and next to edges
 included) and a *realistic stream* (GLOBAL_MERCATOR, GLOBAL_GEODETIC, sqrt2, UTM-like custom grids) where the
-model is evaluated on the exact rational value of the doubles and cases whose answer depends on float rounding
-(query within 1e-9 relative of a tile edge / level boundary) are counted and skipped.
+model is evaluated on the exact rational value of the doubles.  Queries whose answer float rounding may decide
+either way (within 1e-9 tile units of an edge, e.g. +-1 ulp next to an edge; a comparison of the level choice whose
+outcome differs between double and exact arithmetic) are not sent to Coq: for them the oracle accepts exactly the
+answers the specification gives for a perturbation of that size (counted in the evidence).
 Oracle: the statement of C03 re-computed with fractions.Fraction on the implementation's answers.
+Corpus: corpus/C03/*.json (grid parameters + queries, the schema of the `replay` objects of this module) is
+replayed first.
 """
 from fractions import Fraction
 import json
@@ -19,20 +25,26 @@ from gridlib import GridCase, frac, near_integer, is_exact_float_grid
 
 ID = 'C03'
 TECHNIQUE = 'Coq proof over an exact-arithmetic grid model + correspondence of the model with TileGrid (exact and realistic streams)'
-LEVEL_TEXT = ('Theorems for every grid (any bbox, tile size, strictly decreasing positive resolution list, both origins), '
-              'every level, point, tile and query rectangle over the exact-arithmetic Gallina model of TileGrid '
-              '(tile, tile_bbox, grid sizes, flip, limit, origin compatibility, affected tiles with the 1/10 px inset, '
-              'closest_level); the model is tied to mapproxy/grid.py by a correspondence check through the real constructors.')
-LEVEL_NOTE = ('Trusted: Coq kernel; hand-written model Grid.v; the correspondence harness. IEEE-754 rounding of grid.py is '
-              'not modelled: the exact stream (integer parameters) must agree bit for bit, the realistic stream skips and '
-              'counts queries within 1e-9 relative of an edge. threshold_res is not modelled.')
+LEVEL_TEXT = ('Theorems for every grid (any bbox, tile size, positive resolution list, both origins), every level, point, tile, '
+              'query rectangle and requested resolution over the exact-arithmetic Gallina model of TileGrid: partition (point in own '
+              'tile, no overlap, shared edges, valid tiles = tiled area missing < 1 px of the bbox), flip (involution, validity, '
+              'same rectangle when supports_access_with_origin), tiles for a rectangle (cover, no touch, row-major from the top, '
+              'valid iff limit_tile, reported bbox, refusal), level choice (closest_level specification and its uniqueness, '
+              'NoTiles rule); the model is tied to mapproxy/grid.py by a correspondence check through the real constructors and, '
+              'for the integer helpers, by definitions generated from the source and proved equal to the model.')
+LEVEL_NOTE = ('Trusted: Coq kernel; hand-written model Grid.v; translator spec grid_int.py; the correspondence harness. IEEE-754 '
+              'rounding of grid.py is not modelled: the exact stream (integer parameters) must agree bit for bit, on the realistic '
+              'stream and for +-1 ulp queries the oracle allows 1e-9 tile units. threshold_res and string level names are not modelled.')
 DESIGN_REF = 'DESIGN.md section 5, C03'
 RULE = ('case = (grid, API function, arguments); non-trivial = query on / next to / away from a tile edge or level boundary '
         'on a grid whose extent is not a multiple of the tile span or has a custom resolution list; distinct by full tuple')
 TRUSTED = ['model Grid.v hand-written from mapproxy/grid.py; tie = differential run of TileGrid vs model (vm_compute)',
+           'translator/specs/grid_int.py (ast -> Gallina for flip_tile_coord, limit_tile, _create_tile_list; fail closed), its output '
+           'cross-checked against the Python functions and proved equal to the hand model',
            'float rounding of grid.py not modelled (exact stream bit-exact, realistic stream tolerance 1e-9 relative)']
-ASSUMPTIONS = ['resolutions positive and strictly decreasing, bbox non-degenerate, tile size positive',
-               'numerically meaningful range: resolution >= 1e-9 of the coordinate magnitude']
+ASSUMPTIONS = ['resolutions positive (closest_level: strictly decreasing, stretch_factor >= 1), bbox non-degenerate, tile size positive',
+               'numerically meaningful range: resolution >= 1e-9 of the coordinate magnitude',
+               'integer level indices (string level names of limit_tile not modelled); threshold_res = None']
 EXPLANATION = 'grid arithmetic proved over Z for all grids; implementation compared on exact and realistic streams'
 GEN = ['Gen_grid_int.v']
 CORPUS = os.path.join(os.path.dirname(os.path.dirname(os.path.dirname(os.path.abspath(__file__)))), 'corpus', 'C03')
